@@ -226,6 +226,11 @@ func checkC14(rc *Run) error {
 	for _, ec := range []extraCase{
 		{"props:continuation-with-crlf", "k1=b\\\r\n  c\r\nk2=e\r\n", `{"k1":"bc","k2":"e"}`, []string{"-p=props", "-o=json", "-I0", "."}, nil},
 		{"props:continuation-with-lf", "k1=b\\\n  c\nk2=e\n", `{"k1":"bc","k2":"e"}`, []string{"-p=props", "-o=json", "-I0", "."}, nil},
+		// a TOML table without entries is a table
+		{"toml:empty-table", "[a]\n[b]\nx=1\n", `{"a":{},"b":{"x":1}}`, []string{"-p=toml", "-o=json", "-I0", "."}, nil},
+		{"toml:empty-subtable", "[a.b]\n[a.c]\nx=1\n", `{"a":{"b":{},"c":{"x":1}}}`, []string{"-p=toml", "-o=json", "-I0", "."}, nil},
+		{"toml:empty-table-after-its-subtable", "[a.b]\nx=1\n[a]\n[c]\ny=1\n", `{"a":{"b":{"x":1}},"c":{"y":1}}`, []string{"-p=toml", "-o=json", "-I0", "."}, nil},
+		{"toml:only-an-empty-table", "[a]\n", `{"a":{}}`, []string{"-p=toml", "-o=json", "-I0", "."}, nil},
 		// a block scalar is written as a Lua long string: the closing bracket level must not occur in (or at the end of) the text
 		{"lua:long-string-ending-in-bracket", "k1: |-\n  x]\n", `{"k1":"x]"}`, []string{"-o=lua", "."}, []string{"-p=lua", "-o=json", "-I0", "."}},
 		{"lua:long-string-holding-brackets", "k1: |-\n  a]]b]=]c\n  d]\n", `{"k1":"a]]b]=]c\nd]"}`, []string{"-o=lua", "."}, []string{"-p=lua", "-o=json", "-I0", "."}},
